@@ -390,12 +390,11 @@ func BCEncrypt(b cipher.Block, iv, src []byte) []byte {
 	checkFull(b, src)
 	n := b.BlockSize()
 	var cs [][]byte
+	f := clone(iv) // F_1 = IV, F_{i+1} = F_i ^ C_i (the running form of F_i = IV ^ C_1 ^ ... ^ C_{i-1})
 	for _, p := range split(src, n) {
-		f := clone(iv)
-		for _, c := range cs {
-			f = xor(f, c)
-		}
-		cs = append(cs, enc(b, xor(p, f)))
+		c := enc(b, xor(p, f))
+		cs = append(cs, c)
+		f = xor(f, c)
 	}
 	out := []byte{}
 	for _, c := range cs {
@@ -410,12 +409,10 @@ func BCDecrypt(b cipher.Block, iv, src []byte) []byte {
 	checkFull(b, src)
 	cs := split(src, b.BlockSize())
 	out := []byte{}
-	for i, c := range cs {
-		f := clone(iv)
-		for _, prev := range cs[:i] {
-			f = xor(f, prev)
-		}
+	f := clone(iv)
+	for _, c := range cs {
 		out = append(out, xor(dec(b, c), f)...)
+		f = xor(f, c)
 	}
 	return out
 }
